@@ -435,6 +435,11 @@ class Hooks:
         """after a summarised loop: head_syms maps loop-modified names to their head symbols"""
         pass
 
+    def on_iter(self, eng, fr, node, iterable, st, end=False):
+        """one element was taken from `iterable` by a for loop (symbolic iteration) -- or, with end=True, the loop found the
+        iterable exhausted; may return a replacement state"""
+        return None
+
     def on_yield(self, eng, fr, node, value, st):
         """a generator yields `value`; may return a replacement state (e.g. with a tag)"""
         return None
@@ -1113,6 +1118,9 @@ class Engine:
                 old = s.env.get(nm)
                 if any(c[0] == nm and c[1] == "num" for c in cands):
                     head.env[nm] = Num(Lin.var(t))
+                elif old is None and not nm.startswith(("$", "__")) and (iterable is None or nm not in self._assigned_names([st.target])):
+                    # not bound before the loop: still unbound in the first iteration (a read is a possible UnboundLocalError)
+                    head.env[nm] = Unk(("unbound", nm, t))
                 else:
                     head.env[nm] = Unk(t)
             for nm in mutated:
@@ -1135,7 +1143,15 @@ class Engine:
                     exited.extend(assume(f_not(f), s2))
             else:
                 entered = self.assign(fr, st.target, self._elem_of(iterable), head)
-                exited = [head]
+                # a client may account for the element taken from the iterable (e.g. a shared iterator being consumed)
+                ent2 = []
+                for e_ in entered:
+                    r_ = self.hooks.on_iter(self, fr, st, iterable, e_)
+                    if r_ is False:
+                        continue            # the client knows the iterable to be exhausted on this path
+                    ent2.append(r_ or e_)
+                entered = ent2
+                exited = [self.hooks.on_iter(self, fr, st, iterable, head, end=True) or head]
             saved_raises = (list(fr.raises), [list(x) for x in fr.trys], list(fr.returns))
             body_out = self.block(fr, st.body, entered)
             lp = fr.loops.pop()
@@ -1964,7 +1980,7 @@ class Engine:
         except _NotConcrete:
             return None
 
-    def _comp_as_loop(self, fr, e, s, meth):
+    def _comp_as_loop(self, fr, e, s, meth, result=None):
         """a list / set comprehension over an iterable of unknown length, summarised like the loop
         ``for <target> in <iter>: if <conds>: result.<meth>(<elt>)``: one symbolic iteration; client hooks see the same
         events (on_loop_head, the add/append call, on_loop) as for the statement form.  The result is an opaque container."""
@@ -2000,7 +2016,7 @@ class Engine:
             return outs0
         shim = ast.copy_location(ast.For(target=gen.target, iter=gen.iter, body=[ast.copy_location(ast.Expr(value=e.elt), e)], orelse=[]), e)
         shim._sa_func = getattr(e, "_sa_func", None)
-        result = Unk(self.fresh("comp"))
+        result = Unk(self.fresh("comp")) if result is None else result
         outs = []
         saved = {n.id: s.env.get(n.id) for n in ast.walk(gen.target) if isinstance(n, ast.Name)}
         for s1, it in self.eval(fr, gen.iter, s):
@@ -2037,9 +2053,45 @@ class Engine:
             outs.append((after, result))
         return outs
 
+    def _comp_as_stmts(self, fr, e, s, meth):
+        """a comprehension with several `for` clauses over iterables of unknown length: run as the nested statement form
+        ``acc = []; for t1 in it1: if c1: for t2 in it2: if c2: acc.append(elt)`` (clients see ordinary loop / call events)"""
+        if any(g.is_async for g in e.generators) or not isinstance(e.elt, ast.AST):
+            return None
+        tmp = "__comp%d" % next(self.counter)
+        init = ast.Assign(targets=[ast.Name(id=tmp, ctx=ast.Store())],
+                          value=ast.List(elts=[], ctx=ast.Load()) if meth == "append" else ast.Call(func=ast.Name(id="set", ctx=ast.Load()), args=[], keywords=[]))
+        inner = [ast.Expr(value=ast.Call(func=ast.Attribute(value=ast.Name(id=tmp, ctx=ast.Load()), attr=meth, ctx=ast.Load()), args=[e.elt], keywords=[]))]
+        for g in reversed(e.generators):
+            body = inner
+            if g.ifs:
+                test = g.ifs[0] if len(g.ifs) == 1 else ast.BoolOp(op=ast.And(), values=list(g.ifs))
+                body = [ast.If(test=test, body=inner, orelse=[])]
+            inner = [ast.For(target=g.target, iter=g.iter, body=body, orelse=[])]
+        stmts = [init] + inner
+        for x in stmts:
+            ast.copy_location(x, e)
+            ast.fix_missing_locations(x)
+        inner[0]._sa_comp = e
+        names = {n.id for g in e.generators for n in ast.walk(g.target) if isinstance(n, ast.Name)}
+        saved = {k: s.env.get(k) for k in names}
+        outs = []
+        for s2 in self.block(fr, stmts, [s]):
+            v = s2.env.pop(tmp, Unk(self.fresh("comp")))
+            for k, old_ in saved.items():
+                if old_ is None:
+                    s2.env.pop(k, None)
+                else:
+                    s2.env[k] = old_
+            outs.append((s2, v))
+        return outs
+
     def e_SetComp(self, fr, e, s):
         if len(e.generators) == 1 and not e.generators[0].is_async:
             return self._comp_as_loop(fr, e, s, "add")
+        r = self._comp_as_stmts(fr, e, s, "add")
+        if r is not None:
+            return r
         return [(s, Unk(self.fresh("expr:SetComp")))]
 
     def e_ListComp(self, fr, e, s):
@@ -2050,6 +2102,9 @@ class Engine:
         if accs is None and len(e.generators) == 1:
             return self._comp_as_loop(fr, e, s, "append")
         if accs is None:
+            r = self._comp_as_stmts(fr, e, s, "append")
+            if r is not None:
+                return r
             return [(s, Unk(self.fresh("expr:ListComp")))]
         out = []
         for s2, vals in accs:
@@ -2110,10 +2165,35 @@ class Engine:
             results.append((s2, Con(f) if isinstance(f, bool) else Bool(f)))
         return results
 
+    def _bulk_add(self, fr, e, s):
+        """``X.update(<elt> for t in it if c)`` / ``X.extend(...)`` over an iterable of unknown length: summarised like
+        ``for t in it: if c: X.add(<elt>)`` (one symbolic iteration, the same hook events); None when not of that shape"""
+        if not (isinstance(e.func, ast.Attribute) and e.func.attr in ("update", "extend") and len(e.args) == 1 and not e.keywords
+                and isinstance(e.args[0], (ast.GeneratorExp, ast.ListComp, ast.SetComp)) and len(e.args[0].generators) == 1
+                and not e.args[0].generators[0].is_async and isinstance(e.args[0].elt, ast.AST)):
+            return None
+        comp = e.args[0]
+        try:
+            if self._unroll_comp(fr, comp, s) is not None:
+                return None           # known length: the ordinary evaluation passes the element tuple
+        except AnalysisError:
+            pass
+        out = []
+        for s1, base in self.eval(fr, e.func.value, s):
+            for s2, _v in self._comp_as_loop(fr, comp, s1, "add" if e.func.attr == "update" else "append", result=base):
+                s2.epoch += 1
+                if isinstance(e.func.value, ast.Name) and isinstance(s2.env.get(e.func.value.id), Tup):
+                    s2.env[e.func.value.id] = Unk(self.fresh("loopmut:" + e.func.value.id))
+                out.append((s2, NONE))
+        return out
+
     def e_Call(self, fr, e, s):
         aa = self._all_any(fr, e, s)
         if aa is not None:
             return aa
+        ba = self._bulk_add(fr, e, s)
+        if ba is not None:
+            return ba
         out = []
         # evaluate callee
         if isinstance(e.func, ast.Attribute) and not self._static_chain(fr, e.func, s):
@@ -2427,6 +2507,7 @@ class Engine:
             return [(s2, Num(Lin.var(t)))]
         if attr in ("find", "rfind", "index", "count"):
             t = self.fresh(attr)
+            self.origin[t] = (attr, base, tuple(args))
             s2 = s.copy()
             if attr in ("find", "rfind"):
                 s2.add_lin(ge(Lin.var(t), -1))
@@ -2613,6 +2694,20 @@ class Engine:
             if len(args) == 1:
                 self.origin[t] = ("str", args[0])
             return [(s, Unk(t))]
+        if short == "itertools.product" and args and not kwargs:
+            # the product of sequences of statically known length is its tuple of tuples (row-major, as itertools yields it)
+            seqs = []
+            for a in args:
+                q = self._concrete_seq(a)
+                if q is None and isinstance(a, Unk) and isinstance(a.term, tuple) and a.term[:2] == ("ext", "range"):
+                    q = None
+                seqs.append(q)
+            if all(q is not None for q in seqs):
+                total = 1
+                for q in seqs:
+                    total *= len(q)
+                if total <= 64:
+                    return [(s, Tup([Tup(list(c)) for c in itertools.product(*seqs)], "list"))]
         if short in ("sorted", "set", "dict", "frozenset", "sum", "any", "all", "zip", "map", "filter", "iter",
                      "enumerate", "reversed", "tuple", "list", "min", "max", "collections.deque", "itertools.product",
                      "itertools.chain", "itertools.filterfalse", "bool", "print", "warnings.warn", "ord", "chr",
